@@ -224,9 +224,11 @@ class SimLoader(BaseLoader):
         else:
             loop = w.loop
 
-            async def up():
+            async def up_coro():
                 await loop.latency("uptodate")
                 return fresh()
+            # a coroutine function, or (documented just as well) a plain callable that returns an awaitable
+            up = (lambda: up_coro()) if w.sc.get("uptodate_lambda") else up_coro
         full = "%s/%s" % (ns, name) if ns else name
         return TemplateSource(v["text"], full, up, {"m": "%s:%s" % (ns, name)})
 
@@ -294,6 +296,10 @@ class _SeqShim:
 THREAD_TRACE = ("liquid/builtin/loaders/mixins.py", "liquid/utils/lru_cache.py", "liquid/loader.py",
                 "liquid/builtin/loaders/choice_loader.py", "liquid/builtin/loaders/dict_loader.py",
                 "liquid/builtin/loaders/file_system_loader.py", "liquid/builtin/loaders/caching_file_system_loader.py")
+
+
+def wrapper_name(tag, name):
+    return "w_%s_%s" % (tag, name.replace("/", "_").replace(".", "_"))
 
 
 def outcome_of(fn):
@@ -412,6 +418,10 @@ class C23:
                 op["local_ns"] = rng.choice(["u1", "u2", 0])
             if via == "ctx" and rng.chance(0.5):
                 op["ctx_reuse"] = True     # the caller keeps ONE render context for all its requests
+            if via.startswith("tag:") and rng.chance(0.35):
+                # the page that includes / renders / extends the partial is itself a stored template, loaded
+                # through the same loader (cached once, shared by every tenant) instead of parsed per request
+                op["cached_wrapper"] = True
             if config == "fault" and op["mode"] == "async" and rng.chance(0.25):
                 op["cancel_after"] = round(rng.random() * 0.02, 5)
             return op
@@ -450,7 +460,7 @@ class C23:
             "thread_safe": config == "threads" or (kind == "cmixin" and rng.chance(0.3)),
             "uptodate": rng.weighted([("fs-like", 5), ("sync", 3), ("none", 1)]),
             "switch_p": rng.choice([0.05, 0.3, 0.7]), "granularity": rng.choice(["line", "line", "opcode"]),
-            "factory": rng.chance(0.3), "fs_links": rng.chance(0.25),
+            "factory": rng.chance(0.3), "fs_links": rng.chance(0.25), "uptodate_lambda": rng.chance(0.4),
             # delegates of the choice loader that are caching loaders themselves (only their
             # get_source is used, so this must change nothing)
             "caching_delegates": kind == "cchoice" and rng.chance(0.3),
@@ -510,6 +520,24 @@ class C23:
             return liquid.make_choice_loader(subs, auto_reload=sc["auto_reload"], namespace_key=sc["ns_key"],
                                              cache_size=sc["capacity"] if caching else 0)
         return CachingChoiceLoader(subs, **kw) if caching else ChoiceLoader(subs)
+
+    def _store_wrappers(self, sc, w):
+        """Stored pages that include / render / extend each partial (never edited)."""
+        realm = {"cdict": "dict", "cfs": "fs", "cmixin": "sim"}.get(sc["loader"], "dict")
+        for tag in ("include", "render", "extends"):
+            for n in sc["names"]:
+                text = "<{%% %s '%s' %%}>" % (tag, n)
+                wname = wrapper_name(tag, n)
+                ident = (realm, "", wname)
+                seq = w.loop.event("wrapper") if w.loop else 0
+                v = w.store.put(ident, seq, "next")
+                v["text"] = text
+                if realm == "fs":
+                    w.plan.enabled = False
+                    w.fs.write("root/" + self._fs_rel(sc, wname), text, 0.5)
+                    w.plan.enabled = True
+                elif realm == "dict":
+                    dict.__setitem__(w.dict_realm, wname, text)
 
     # -- store mutation (editor) ---------------------------------------------------
     def _apply_put(self, sc, w, ident, mode):
@@ -610,6 +638,7 @@ class C23:
                 dict.__setitem__(w.dict_realm, "%s/%s" % (ns, n), "[decoy|%s|%s|0]" % (ns, n))
         for ident in sc["initial"]:
             self._apply_put(sc, w, ident, "next")
+        self._store_wrappers(sc, w)
         loop = SimLoop(Rng(sc["sched_seed"], ("sched",)), step_cap=60000, lat_profile=sc["lat"])
         w.loop = loop
         sut_env = Environment(extra=True, loader=self._build_loader(sc, w, True), globals=dict(sc["env_globals"]))
@@ -654,8 +683,17 @@ class C23:
                 if op.get("local_ns") is not None and tag != "extends":
                     pre = "{%% assign %s = %s %%}" % (NS_KEY, ("'%s'" % op["local_ns"]) if isinstance(op["local_ns"], str)
                                                      else op["local_ns"])
-                wrapper = env.from_string("<%s{%% %s '%s' %%}>" % (pre, tag, name), globals=g)
                 data = {NS_KEY: ns} if ns is not None else {}
+                if op.get("cached_wrapper") and name in sc["names"]:
+                    wname = wrapper_name(tag, name)
+                    if op["mode"] == "sync":
+                        return lambda: env.get_template(wname, globals=g).render(**data)
+
+                    async def go_w():
+                        t = await env.get_template_async(wname, globals=g)
+                        return await t.render_async(**data)
+                    return go_w
+                wrapper = env.from_string("<%s{%% %s '%s' %%}>" % (pre, tag, name), globals=g)
                 if op["mode"] == "sync":
                     return lambda: wrapper.render(**data)
                 return lambda: wrapper.render_async(**data)
@@ -820,6 +858,9 @@ class C23:
                 if not isinstance(t, BoundTemplate):
                     add("cache", "cache:bad-entry", {"key": k, "value": repr(t)[:80], "where": where})
                     continue
+                if k.startswith("w_") or "/w_" in k:
+                    sig.append((k, False))
+                    continue        # a stored wrapper page
                 m = TOKEN_RE.search(str(t))
                 if not m:
                     add("cache", "cache:bad-entry", {"key": k, "value": str(t)[:80], "where": where})
